@@ -1,0 +1,32 @@
+//go:build verif
+
+package transform
+
+import "sync/atomic"
+
+// Verification hook, compiled in only with the "verif" build tag: lets an external
+// monitor see which part of the output each worker of the parallel inverse BWT wrote.
+const verifOn = true
+
+// VerifBWTHook is called with task < 0 when an inverse BWT of 'hi' bytes starts on
+// the instance identified by id, and with task >= 0 (the first chunk of the worker)
+// and the closed range [lo, hi] of output positions once a worker has written a chunk.
+type VerifBWTHook func(id any, task int, lo, hi int)
+
+var verifBWTHook atomic.Pointer[VerifBWTHook]
+
+// SetVerifBWTHook installs (or removes with nil) the hook.
+func SetVerifBWTHook(h VerifBWTHook) {
+	if h == nil {
+		verifBWTHook.Store(nil)
+		return
+	}
+
+	verifBWTHook.Store(&h)
+}
+
+func verifBWT(id any, task int, lo, hi int) {
+	if h := verifBWTHook.Load(); h != nil {
+		(*h)(id, task, lo, hi)
+	}
+}
